@@ -17,4 +17,5 @@ def jobs(tier, seed):
                     range(3, T(tier, 6, 8) + 1), T(tier, 100, 900), f'request, start line + "A: 1" line, capacity {cap}, ' + 'every {n}-byte remainder, request header options symbolic', 5)
     J += deepen(P, G, 'full-array-resp', lambda n: sc('resp', n, prefix=RESP_LINE + b'A: 1\r\n', api='cfg', fl=RESP_HDR_SYM, cap=1),
                 range(3, T(tier, 5, 7) + 1), T(tier, 100, 900), 'response, start line + "A: 1" line, capacity 1, every {n}-byte remainder, 4 header options symbolic', 4)
+    if tier == 'thorough': J += sliding_families(P, G, tier)
     return J
